@@ -580,6 +580,10 @@ fn finish(sc: &Scenario, renderer: &str, prep: Prepared, ended: Ended) -> Observ
     if obs.exit_status == Some(101) && sim.faults.iter().any(|f| matches!(f, Fault::OutputClosed { which: 2, .. })) {
         obs.exit_status = Some(1);
     }
+    // scrut panicked: an observation (no report can be expected), not a problem of the harness
+    if obs.exit_status == Some(101) {
+        obs.panic = Some(obs.stderr.lines().find(|l| l.contains("panicked")).unwrap_or("exit status 101").chars().take(200).collect());
+    }
     if obs.exit_status == Some(98) {
         obs.harness_error = Some(format!("simulator could not start: {}", obs.stderr));
     }
@@ -619,7 +623,7 @@ fn finish(sc: &Scenario, renderer: &str, prep: Prepared, ended: Ended) -> Observ
             },
         );
     }
-    if renderer == "json" && !update && obs.exit_status != Some(1) && obs.exit_status.is_some() && obs.sim_abort.is_none() {
+    if renderer == "json" && !update && obs.exit_status != Some(1) && obs.exit_status != Some(101) && obs.exit_status.is_some() && obs.sim_abort.is_none() {
         match serde_json::from_str::<serde_json::Value>(&obs.stdout) {
             Ok(serde_json::Value::Array(items)) => {
                 let mut cursor: BTreeMap<usize, usize> = BTreeMap::new();
